@@ -222,4 +222,12 @@ NEVER("clearenv", int clearenv(void), return 0)
 NEVER("chdir", int chdir(const char *p), (void)p; return 0)
 NEVER("umask", mode_t umask(mode_t m), (void)m; return 0)
 NEVER("sleep", unsigned sleep(unsigned s), (void)s; return 0)
+#include <poll.h>
+#include <sys/select.h>
+#include <time.h>
+#define WAITS(name, proto, ret) proto { __CPROVER_assert(0, name ": the logging path must not wait for a sink or a timer (the caller's exec would be delayed for as long as the sink stays unread)"); ret; }
+WAITS("poll", int poll(struct pollfd *f, nfds_t n, int t), (void)f; (void)n; (void)t; return nondet_int())
+WAITS("select", int select(int n, fd_set *r, fd_set *w, fd_set *e, struct timeval *t), (void)n; (void)r; (void)w; (void)e; (void)t; return nondet_int())
+WAITS("nanosleep", int nanosleep(const struct timespec *a, struct timespec *b), (void)a; (void)b; return 0)
+WAITS("usleep", int usleep(useconds_t u), (void)u; return 0)
 NEVER("alarm", unsigned alarm(unsigned s), (void)s; return 0)
